@@ -13,8 +13,8 @@ RULE = ("Schema specs x documents: valid-by-construction operations, the same af
         "Oracle: validate_ast returns without raising; when it reports no error, execution with generated accepted "
         "variables and a fault-free world raises nothing, the reference merge rule finds no ambiguous response key, "
         "and data equals the reference executor's (ordered). Non-trivial: a mutated or grammar-random document; "
-        "distinct = (schema, text). Mutated documents that still validate are counted separately. Plus 45 fixed *deep* "
-        "documents (nested fields, inline fragments, fragment chains, list and object literals; 40 to 245 levels) over a "
+        "distinct = (schema, text). Mutated documents that still validate are counted separately. Plus 54 fixed *deep* "
+        "documents (nested fields, list-typed fields, inline fragments, fragment chains, list and object literals; 40 to 245 levels) over a "
         "recursive schema: whatever the parser accepts, validate_ast returns; whatever it reports valid executes without "
         "raising under both executors.")
 ASSUMPTIONS = [
@@ -155,7 +155,7 @@ def shard(ctx):
             ctx.event("deep-document:" + shape)
 
 
-DEEP = [(sh, d) for sh in ("fields", "inline-fragments", "fragment-chain", "list-value", "object-value")
+DEEP = [(sh, d) for sh in ("fields", "inline-fragments", "fragment-chain", "list-value", "object-value", "list-fields")
         for d in (40, 90, 125, 135, 150, 180, 210, 235, 245)]
 
 
@@ -166,6 +166,8 @@ def deep_text(shape, d):
         return "{ " + "... on Query { " * d + "n" + " }" * d + " }"
     if shape == "fragment-chain":
         return "{ ...F0 } " + " ".join("fragment F%d on Query { a { ...F%d } }" % (i, i + 1) for i in range(d)) + " fragment F%d on Query { n }" % d
+    if shape == "list-fields":
+        return "{ " + "l { " * d + "n" + " }" * d + " }"
     if shape == "list-value":
         return "{ v(x: " + "[" * d + "1" + "]" * d + ") }"
     return "{ o(x: " + "{r: " * d + "{k: 1}" + "}" * d + ") }"
@@ -178,8 +180,9 @@ def check_deep(case):
     from py_gql.execution import Executor, BlockingExecutor
     from py_gql.lang import parse
     from py_gql.validation import validate_ast
-    schema = build_schema("scalar Any input In { r: In k: Int } type Query { a: Query n: Int v(x: Any): Int o(x: In): Int }")
+    schema = build_schema("scalar Any input In { r: In k: Int } type Query { a: Query l: [Query!]! n: Int v(x: Any): Int o(x: In): Int }")
     schema.register_resolver("Query", "a", lambda root, ctx, info: {})
+    schema.register_resolver("Query", "l", lambda root, ctx, info: [{}])
     for f in ("n", "v", "o"):
         schema.register_resolver("Query", f, lambda root, ctx, info, **kw: 1)
     text = deep_text(case["shape"], case["deep"])
@@ -201,8 +204,8 @@ def check_deep(case):
         try:
             res = process_graphql_query(schema, text, executor_cls=cls)
             leaf = res.response().get("data")
-            while isinstance(leaf, dict) and "a" in leaf:
-                leaf = leaf["a"]
+            while isinstance(leaf, dict) and ("a" in leaf or "l" in leaf):
+                leaf = leaf["a"] if "a" in leaf else leaf["l"][0]
             if not res.errors and (not isinstance(leaf, dict) or not set(leaf) & {"n", "v", "o"}):
                 vios.append(("C05/deep/validated-but-wrong-shape/%s" % tag, "depth=%d executor=%s errors=%r" % (case["deep"], cls.__name__, [str(x) for x in res.errors][:2])))
         except BaseException as e:  # noqa
